@@ -101,7 +101,7 @@ def queue_part():
     base = copy.deepcopy(runs[0])
     for e in base:
         if e.get("ev") == "e" and e["ret"][0] == "value":
-            e["ret"][2] += 1
+            e["ret"][2] = 99999      # a value that no producer pushed
             break
     acc, rej, _ = check_queue.validate_traces(cap, sorted(po), [base], WD, "st_q_m")
     record("MpscQueue_Trace rejects an execution with a corrupted popped value", len(rej) == 1)
@@ -131,6 +131,79 @@ def ordering_part():
         mod, cfg = seqlockdefs.write_mc("st_weak_" + k, c2, ["r1"], 2, 2, WD)
         r = run_tlc(mod, cfg, WD, workers=8, timeout=600)
         record(f"TLC finds a counterexample when {k} is weakened to {v}", not r.ok)
+
+
+def pool_part():
+    import check_pool
+    import pooldefs
+    sc = pooldefs.SCENARIOS["burst"]
+    struct = check_pool.extract_structure()
+    inp = dict(nw=2, scripts={str(t): v for t, v in sc["scripts"].items()}, runs=sc["runs"], repeat=2, drop_after=True)
+    lines, rc, err = check_pool.harness(inp, WD, "st_pool")
+    runs = check_pool.split_resets(lines)
+
+    def val(r, tag):
+        a, rej, _ = check_pool.validate("burst", sc, 2, struct, [r], WD, tag, pooldefs.INVARIANTS)
+        return a, rej
+    base = runs[0]
+    a, rej = val(base, "st_pool0")
+    record("Pool_Trace accepts an execution of the real thread pool", rc == 0 and a == 1 and not rej)
+    m = copy.deepcopy(base)
+    i = [i for i, e in enumerate(m) if e.get("ev") == "pt" and e["p"] == 27][-1]
+    m[i]["b"] = 1 if m[i]["b"] != 1 else 2
+    record("Pool_Trace rejects a corrupted popped task", len(val(m, "st_pool1")[1]) == 1)
+    m = copy.deepcopy(base)
+    i = [i for i, e in enumerate(m) if e.get("ev") == "ret"][-1]
+    m[i]["r"], m[i]["n"] = "unprocessed", 1
+    record("Pool_Trace rejects a corrupted result of run()", len(val(m, "st_pool2")[1]) == 1)
+    m = copy.deepcopy(base)
+    del m[[i for i, e in enumerate(m) if e.get("ev") == "pb"][2]]
+    record("Pool_Trace rejects an execution with a dropped poll-begin marker", len(val(m, "st_pool3")[1]) == 1)
+    m = copy.deepcopy(base)
+    i = [i for i, e in enumerate(m) if e.get("ev") == "mpt" and e["p"] == 31][0]
+    j = [k for k, e in enumerate(m) if e.get("ev") == "pt" and e["p"] == 21 and k < i][-1]
+    m[i], m[j] = m[j], m[i]
+    record("Pool_Trace rejects 'pool seen idle before set_all_workers_inactive'", len(val(m, "st_pool4")[1]) == 1)
+    for kw, scen, inv in ((dict(fold_first=False), "balanced", "CountExact"), (dict(hand_over=False), "panic", "NoDropOutsideWorker"),
+                          (dict(flag_under_lock=False), "overflow", "OkMeansQuiescent")):
+        st = dict(struct)
+        st.update(kw)
+        mod, cfg = pooldefs.write_mc(scen, pooldefs.SCENARIOS[scen], 2, WD, **st)
+        r = run_tlc(mod, cfg, WD, workers=8, timeout=900)
+        record(f"TLC finds a counterexample to {inv} when {kw} (structural parameter of Pool.tla)",
+               (not r.ok) and inv in (r.violation or ""))
+
+
+def chan_part():
+    import check_chan
+    from framework import Check
+    chk = Check("C12", "quick", 1)
+    chk.violations = []
+    orig = check_chan.norm_spec
+    check_chan.channel_part.__globals__["norm_spec"] = orig
+    # perturb what the specification expects for one observable: the replay must report it
+    def bent(o, futs):
+        d = orig(o, futs)
+        if isinstance(o["swoken"], dict) is False and d["len"] == 1 and d["count"] == 1:
+            d = dict(d, count=2)
+        return d
+    check_chan.channel_part.__globals__["norm_spec"] = bent
+    try:
+        mod, cfg = check_chan.write_mc("st", 1, [1, 2], 1, 4, WD)
+        res = run_tlc(mod, cfg, WD, workers=4, timeout=300)
+        from tla import parse_printed
+        beh = [parse_printed(ln)[1] for ln in res.printed][:50]
+        lines, rc, err = check_chan.harness(dict(cap=1, futs=[1, 2], max_recv=1,
+                                                 behaviours=[[[o["op"], o["arg"]] for o in h] for h in beh]), WD, "st_chan")
+        mism = sum(1 for h, g in zip(beh, lines)
+                   if any(bent(eo["obs"], [1, 2]) != orig(go["obs"], [1, 2]) for eo, go in zip(h, g["ops"])))
+        same = sum(1 for h, g in zip(beh, lines)
+                   if all(eo["res"] == go["res"] and orig(eo["obs"], [1, 2]) == orig(go["obs"], [1, 2])
+                          for eo, go in zip(h, g["ops"])))
+    finally:
+        check_chan.channel_part.__globals__["norm_spec"] = orig
+    record("Channel histories replayed on the real channel agree with Channel.tla", rc == 0 and same == len(beh) and beh)
+    record("a perturbed expected observable of Channel.tla is reported by the replay", mism > 0)
 
 
 def coverage_part():
@@ -164,6 +237,8 @@ def run():
     queue_part()
     task_part()
     ordering_part()
+    pool_part()
+    chan_part()
     coverage_part()
     bad = [n for n, ok in results if not ok]
     with open(os.path.join(os.path.dirname(OUT), "evidence", "selftest.json"), "w") as f:
